@@ -41,9 +41,9 @@ def run(ctx):
 
     def mc():
         try:
-            ctx.tlc_mc("MC_Metainfo", "MC_Metainfo.cfg", timeout=600, workers=4)
+            ctx.tlc_mc("MC_Metainfo", "MC_Metainfo.cfg", timeout=1800, workers=4)
             if not ctx.quick():
-                ctx.tlc_mc("MC_Metainfo", "MC_Metainfo_big.cfg", timeout=1500, workers=4)
+                ctx.tlc_mc("MC_Metainfo", "MC_Metainfo_big.cfg", timeout=3000, workers=4)
         except Exception as ex:  # re-raised in the main thread
             mc_err.append(ex)
 
@@ -58,7 +58,7 @@ def run(ctx):
     else:
         import time
         time.sleep(0.3)
-        items, _ = ctx.tlc_gen("MetainfoGen", ctx.pick("MetainfoGen.cfg", "MetainfoGen_thorough.cfg"), timeout=900)
+        items, _ = ctx.tlc_gen("MetainfoGen", ctx.pick("MetainfoGen.cfg", "MetainfoGen_thorough.cfg"), timeout=2400)
         if len(items) < 1000:
             raise vlib.MachineryError("generator produced only %d cases" % len(items))
         cases_path = ctx.path("cases.json")
@@ -68,9 +68,9 @@ def run(ctx):
     tp = ctx.path("trace.ndjson")
     scr = ctx.path("drv", "x")
     r = ctx.run_drv(drv, ["-mode", "parent", "-cases", cases_path, "-out", tp, "-scratch", os.path.dirname(scr), "-seed", str(ctx.seed),
-                          "-mut", str(ctx.pick(1, 3)), "-workers", str(ctx.pick(8, 10)), "-reps", str(ctx.pick(1, 2)),
+                          "-mut", str(ctx.pick(1, 2)), "-workers", str(ctx.pick(8, 10)), "-reps", str(ctx.pick(1, 2)),
                           "-maxbad", str(ctx.pick(10, 150)), "-cpums", "1500", "-rejsample", str(ctx.pick(20, 20))],
-                    timeout=ctx.pick(600, 2400))
+                    timeout=ctx.pick(1800, 3600))
     stats = json.loads(r.stdout.strip().splitlines()[-1])
     ctx.extra["driver"] = stats
     lines = vlib.read_ndjson(tp)
